@@ -95,7 +95,7 @@ CFG = {
         "now - liveness is never the Go zero time (year 1), so the ActiveAfter bound is always present",
         "a stored record's Info survives the repository's JSON encoding unchanged (listing cases use ASCII strings); addresses in the registry are distinct",
         "required status words only have bits with an index set (ds.Members(), 9 bits) - theorem hypothesis, true of both frontends (required_in_scope); other masks are compared with the model only",
-        "gin's query binding is modelled in the driver (strconv.ParseBool table, empty = false, invalid = 400), not in the theorems",
+        "gin's query binding of the three bool flags is the REST model's (Model/Rest.lean: bindBool / parseBool = strconv.ParseBool table, absent or empty = false; bindListQuery fails => listServers answers 400), called by the driver's `rest` op; the C03 theorems do not speak about it (C17's do)",
         "the listing is compared as a multiset: Go map iteration order is not modelled",
     ],
     "trusted_base": COMMON_TRUSTED,
